@@ -76,8 +76,8 @@ Fixpoint digit_loop (t : int_ty) (num : Z) (bytes : list Z) : option (Z * list Z
 Definition sign_arm (sg : bool) (bytes : list Z) : bool * list Z :=
   if sg then
     match bytes with
-    | 45 :: rem => (true, rem)
-    | _ => (false, bytes)
+    | byte :: rem => if byte =? 45 then (true, rem) else (false, bytes)
+    | [] => (false, bytes)
     end
   else (false, bytes).
 
@@ -123,13 +123,22 @@ Definition parse_int_t (t : int_ty) (s : list Z) : pres (Z * list Z) :=
 Definition parse_int_m (w : Z) (sg : bool) (s : list Z) : pres (Z * list Z) :=
   parse_int_t (int_ty_of w sg) s.
 
+(** a slice pattern made of byte literals followed by [..]: [[b't', b'r', b'u', b'e', ..]] *)
+Fixpoint starts_with (bytes lit : list Z) {struct lit} : bool :=
+  match lit with
+  | [] => true
+  | c :: lit' =>
+      match bytes with
+      | b :: bytes' => (b =? c) && starts_with bytes' lit'
+      | [] => false
+      end
+  end.
+
 (** [Parser::parse_bool] body *)
 Definition parse_bool_m (s : list Z) : pres (bool * list Z) :=
-  match s with
-  | 116 :: 114 :: 117 :: 101 :: _ => POk (true, str_from s 4)
-  | 102 :: 97 :: 108 :: 115 :: 101 :: _ => POk (false, str_from s 5)
-  | _ => PErr ParseBool
-  end.
+  if starts_with s [116; 114; 117; 101] then POk (true, str_from s 4)
+  else if starts_with s [102; 97; 108; 115; 101] then POk (false, str_from s 5)
+  else PErr ParseBool.
 
 (** The part of the [try_parsing! {self, FromStart, ret; ..}] frame that this property
     observes: a parser is [(start_offset, str)]; on success [start_offset] advances by the
